@@ -2,13 +2,20 @@
 // One case per line on stdin, one result line on stdout (decimal integers, '|' separates groups).
 //
 //   maxcard <dom>                                    -> maxCardinality of the residue domain (-1: none)
-//   int <hist> <tt> n p1..pn r1..rn na a1..a_na      IntRNSsystem<std::vector,std::allocator>
+//   int <hist> <ctor> <tt> <order> n p1..pn r1..rn na a1..a_na      IntRNSsystem<std::vector,std::allocator>
+//        ctor  = element type of the container handed to the constructor (Integer: the plain constructor; int32|uint32|int64|uint64:
+//                the templated converting constructor); EVERY object of the history that stands for the primes is built this way
+//        tt    = element type of the residue container handed to RnsToMixedRadix / RnsToRing (Integer|int32|uint32|int64|uint64)
+//        order = the entry point called FIRST on the object obtained (mix|ring|recip|recipi|prod|rns); its answer is the last group
 //        -> m0..m(n-1) | V | P | a_j mod p_i (all j) | RnsToRing(RingToRns(a_j)) (all j) | ck_k mod p_k (k=1..n-1) | V2 | accessors .. | V3
+//           | P2 (product() again) | RingToRns(a_last) into an EMPTY destination | answer of the first call
 //           (V = RnsToRing(r), P = product(), V2 = second RnsToRing on the same object)
-//   rns <hist> <dom> n p1..pn r1..rn na a1..a_na     RNSsystem<Integer, Dom>
+//   rns <hist> <dom> <order> n p1..pn r1..rn na a1..a_na     RNSsystem<Integer, Dom>
 //        -> m0..m(n-1) | V | a_j mod p_i (all j) | RnsToRing(RingToRns(a_j)) | ck_k (k=1..n-1) | V2 | accessors .. | V3
-//   fixed <hist> <tt> n p1..pn r1..rn                RNSsystemFixed<Integer>, residues in a vector<tt>  -> V
-//   cra <dom> <reduce 1|0> M D A e                   ChineseRemainder<IntegerDom,Dom,reduce>  -> res res(copy)   (constructor arguments changed before use)
+//           | digits into an exact-size garbage destination | digits into an oversized destination (first n) | RingToRns(a_last) into an
+//           empty destination | answer of the first call
+//   fixed <hist> <tt> n p1..pn r1..rn                RNSsystemFixed<Integer>, residues in a vector<tt> (or Array0<Integer>: tt = array0)  -> V V2
+//   cra <dom> <reduce 1|0> M D A e                   ChineseRemainder<IntegerDom,Dom,reduce>  -> res res(copy) res(assigned)  (constructor arguments changed before use)
 //   lift <dom> <atonce|prepared|copies> n p.. r..    incremental lifting x_1..x_n by the functor | RNSsystem::RnsToRing
 //   poly <hist> <dom> p n a1..an r1..rn d c0..cd     Poly1CRT<dom> over GF(p)
 //        -> coefficients of RnsToRing(r) (low degree first, degree-stripped) | evaluations of the polynomial c at a_i
@@ -16,7 +23,8 @@
 //
 // hist (how the system object was obtained):
 //   fresh       constructed from the primes
-//   freshtt     (int only) constructed through the templated constructor from a vector<TT>
+//   assigncc    a never-used system assigned over a USED system with the same number of moduli; the source is changed afterwards
+//   dfltcopyset (rns only) default-constructed, copied while still empty, the copy filled by setPrimes
 //   copycold    copy-constructed from a fresh system that was never used
 //   copywarm    copy-constructed from a system that already converted something (cache filled)
 //   copy2       copy of a copy (warm original)
@@ -68,48 +76,66 @@ static IV other_primes(size_t n) {   // a different coprime system (first n of t
 }
 
 // The constructor argument lives on the heap; right after construction it is overwritten and freed, so an object that kept a
-// reference / shared storage instead of its own copy computes with garbage.
-static IRNS* make_int(const IV& P) {
-    IV* tmp = new IV(P);
+// reference / shared storage instead of its own copy computes with garbage.  CT = Integer selects the plain constructor
+// IntRNSsystem(const array&), any other CT the templated converting constructor.
+template <class CT> static IRNS* make_int_ct(const IV& P) {
+    std::vector<CT>* tmp = new std::vector<CT>(castvec<CT>(P));
     IRNS* S = new IRNS(*tmp);
-    for (size_t i = 0; i < tmp->size(); ++i) (*tmp)[i] = Integer(1);
+    for (size_t i = 0; i < tmp->size(); ++i) (*tmp)[i] = CT(1);
     delete tmp;
     return S;
 }
-template <class TT> static IRNS* make_int_tt(const IV& P) {
-    std::vector<TT>* tmp = new std::vector<TT>(castvec<TT>(P));
-    IRNS* S = new IRNS(*tmp);
-    for (size_t i = 0; i < tmp->size(); ++i) (*tmp)[i] = TT(1);
-    delete tmp;
-    return S;
+static IRNS* make_int(const IV& P) { return make_int_ct<Integer>(P); }
+typedef IRNS* (*IntMaker)(const IV&);
+static IntMaker int_maker(const std::string& ct) {
+    if (ct == "Integer") return &make_int_ct<Integer>;
+    if (ct == "int32") return &make_int_ct<int32_t>;
+    if (ct == "uint32") return &make_int_ct<uint32_t>;
+    if (ct == "int64") return &make_int_ct<int64_t>;
+    if (ct == "uint64") return &make_int_ct<uint64_t>;
+    return 0;
 }
 
 template <class TT>
-static std::string run_int(const std::string& hist, const IV& P, const IV& R, const IV& As) {
+static std::string run_int(const std::string& hist, IntMaker mk, const std::string& order, const IV& P, const IV& R, const IV& As) {
     const size_t n = P.size();
     std::vector<TT> res = castvec<TT>(R);
     IV zeros(n, Integer(0)), ones(n, Integer(1));
     IRNS* S = 0; IRNS* aux = 0; IRNS* aux2 = 0;
     Integer dump;
     IV O = other_primes(hist == "assignsame" ? n : n + 2); IV oo(O.size(), Integer(1));
-    if (hist == "fresh") S = make_int(P);
-    else if (hist == "freshtt") S = make_int_tt<TT>(P);
-    else if (hist == "reuse") { S = make_int(P); S->RnsToRing(dump, ones); }
-    else if (hist == "copycold") { aux = make_int(P); S = new IRNS(*aux); }
-    else if (hist == "copywarm") { aux = make_int(P); aux->RnsToRing(dump, ones); dump = aux->product(); S = new IRNS(*aux); }
-    else if (hist == "copy2") { aux = make_int(P); aux->RnsToRing(dump, ones); aux2 = new IRNS(*aux); S = new IRNS(*aux2); }
+    if (hist == "fresh") S = mk(P);
+    else if (hist == "reuse") { S = mk(P); S->RnsToRing(dump, ones); }
+    else if (hist == "copycold") { aux = mk(P); S = new IRNS(*aux); }
+    else if (hist == "copywarm") { aux = mk(P); aux->RnsToRing(dump, ones); dump = aux->product(); S = new IRNS(*aux); }
+    else if (hist == "copy2") { aux = mk(P); aux->RnsToRing(dump, ones); aux2 = new IRNS(*aux); S = new IRNS(*aux2); }
     else if (hist == "copymod") {      // the source stays alive, is re-assigned to another system and used, after the copy was taken
-        aux = make_int(P); aux->RnsToRing(dump, ones); dump = aux->product(); S = new IRNS(*aux);
+        aux = mk(P); aux->RnsToRing(dump, ones); dump = aux->product(); S = new IRNS(*aux);
         IRNS* o2 = make_int(O); *aux = *o2; delete o2; aux->RnsToRing(dump, oo); dump = aux->product();
     }
-    else if (hist == "assigncold") { aux = make_int(P); S = new IRNS(); *S = *aux; }
+    else if (hist == "assigncold") { aux = mk(P); S = new IRNS(); *S = *aux; }
     else if (hist == "assignwarm" || hist == "assignsame") {
-        aux = make_int(P); aux->RnsToRing(dump, ones); dump = aux->product();
+        aux = mk(P); aux->RnsToRing(dump, ones); dump = aux->product();
         S = make_int(O); S->RnsToRing(dump, oo); dump = S->product();
         *S = *aux;
     }
+    else if (hist == "assigncc") {     // cold source assigned over a used system of the same length, then the source is changed
+        aux = mk(P);
+        S = make_int(other_primes(n)); { IV o1(n, Integer(1)); S->RnsToRing(dump, o1); dump = S->product(); S->Reciprocals(); }
+        *S = *aux;
+        IRNS* o2 = make_int(O); *aux = *o2; delete o2;
+    }
     else return "BAD-HIST";
-    if (aux && hist != "copy2" && hist != "copymod") { delete aux; aux = 0; }    // the source object is gone before the copy is used
+    if (aux && hist != "copy2" && hist != "copymod" && hist != "assigncc") { delete aux; aux = 0; }    // the source object is gone before the copy is used
+    // ---- the first call on the object just obtained
+    std::ostringstream first;
+    if (order == "mix") { IRNS::array m; S->RnsToMixedRadix(m, res); for (size_t i = 0; i < m.size(); ++i) first << m[i] << " "; }
+    else if (order == "ring") { Integer W(-11); S->RnsToRing(W, res); first << W << " "; }
+    else if (order == "recip") { const IRNS::array& c = S->Reciprocals(); for (size_t k = 1; k < c.size() && k < n; ++k) first << nnmod(c[k], P[k]) << " "; }
+    else if (order == "recipi") { if (n >= 2) first << nnmod(S->reciprocal(n - 1), P[n - 1]) << " "; }
+    else if (order == "prod") { first << S->product() << " "; }
+    else if (order == "rns") { IRNS::array q(1, Integer(3)); if (!As.empty()) { S->RingToRns(q, As[0]); for (size_t i = 0; i < q.size(); ++i) first << q[i] << " "; } }
+    else return "BAD-ORDER";
     std::ostringstream o;
     IRNS::array mix;
     S->RnsToMixedRadix(mix, res);
@@ -141,13 +167,16 @@ static std::string run_int(const std::string& hist, const IV& P, const IV& R, co
     o << "| ";
     IRNS::array mix2(n + 3, Integer(5)); S->RnsToMixedRadix(mix2, res);
     Integer V3(-4); S->MixedRadixToRing(V3, mix2); o << V3;
+    o << " | " << S->product() << " | ";
+    if (!As.empty()) { IRNS::array r0; S->RingToRns(r0, As.back()); for (size_t i = 0; i < r0.size(); ++i) o << r0[i] << " "; }
+    o << "| " << first.str();
     delete S; delete aux; delete aux2;
     return o.str();
 }
 
 // ------------------------------------------------------------------ RNSsystem<Integer, Domain>
 template <class Dom>
-static std::string run_rns(const std::string& hist, const IV& P, const IV& R, const IV& As) {
+static std::string run_rns(const std::string& hist, const std::string& order, const IV& P, const IV& R, const IV& As) {
     typedef RNSsystem<Integer, Dom> RNS;
     typedef typename RNS::domains Domains;
     typedef typename RNS::array Elements;
@@ -186,12 +215,31 @@ static std::string run_rns(const std::string& hist, const IV& P, const IV& R, co
     else if (hist == "setback") {      // primes -> use -> other primes of the same length -> use -> primes again
         S = Mk::mk(D); S->RnsToRing(dump, Ones); Mk::set(S, OD); S->RnsToRing(dump, OE); S->Reciprocals(); Mk::set(S, D);
     }
+    else if (hist == "dfltcopyset") {  // default-constructed, copied while empty, the copy filled by setPrimes
+        aux = new RNS(); S = new RNS(*aux); Mk::set(S, D);
+    }
+    else if (hist == "assigncc") {     // cold source assigned over a used system of the same length; the source gets other primes afterwards
+        aux = Mk::mk(D);
+        IV O1 = other_primes(n); Domains OD1(n); Elements OE1(n);
+        for (size_t i = 0; i < n; ++i) { OD1[i] = Dom(O1[i]); OD1[i].init(OE1[i], Integer(1)); }
+        S = Mk::mk(OD1); S->RnsToRing(dump, OE1); S->Reciprocals();
+        *S = *aux;
+        Mk::set(aux, OD);
+    }
     else return "BAD-HIST";
-    if (aux && hist != "copy2" && hist != "copymod") { delete aux; aux = 0; }
+    if (aux && hist != "copy2" && hist != "copymod" && hist != "assigncc") { delete aux; aux = 0; }
+    Integer t;
+    // ---- the first call on the object just obtained
+    std::ostringstream first;
+    if (order == "mix" || order == "prod") { Elements m; S->RnsToMixedRadix(m, E); for (size_t i = 0; i < m.size(); ++i) first << D[i].convert(t, m[i]) << " "; }
+    else if (order == "ring") { Integer W(-11); S->RnsToRing(W, E); first << W << " "; }
+    else if (order == "recip") { const Elements& c = S->Reciprocals(); for (size_t k = 1; k < c.size() && k < n; ++k) first << D[k].convert(t, c[k]) << " "; }
+    else if (order == "recipi") { if (n >= 2) first << D[n - 1].convert(t, S->reciprocal(n - 1)) << " "; }
+    else if (order == "rns") { Elements q(1); if (!As.empty()) { S->RingToRns(q, As[0]); for (size_t i = 0; i < q.size(); ++i) first << D[i < n ? i : 0].convert(t, q[i]) << " "; } }
+    else return "BAD-ORDER";
     std::ostringstream o;
     Elements mix;
     S->RnsToMixedRadix(mix, E);
-    Integer t;
     for (size_t i = 0; i < mix.size(); ++i) o << D[i].convert(t, mix[i]) << " ";
     o << "| ";
     Integer V("987654321987654321987654321"); S->RnsToRing(V, E); o << V << " | ";
@@ -217,6 +265,16 @@ static std::string run_rns(const std::string& hist, const IV& P, const IV& R, co
     for (size_t k = 1; k < n; ++k) o << D[k].convert(t, S->reciprocal(k)) << " ";
     o << "| ";
     Integer V3(-4); S->MixedRadixToRing(V3, mix); o << V3;
+    // RnsToMixedRadix into a destination of exactly the right size holding other values, and into an oversized one
+    o << " | ";
+    { Elements me(n); for (size_t i = 0; i < n; ++i) D[i].init(me[i], Integer(1)); S->RnsToMixedRadix(me, E);
+      for (size_t i = 0; i < n && i < me.size(); ++i) o << D[i].convert(t, me[i]) << " "; if (me.size() != n) o << "SIZE "; }
+    o << "| ";
+    { Elements mo(n + 2); for (size_t i = 0; i < n + 2; ++i) D[i < n ? i : 0].init(mo[i], Integer(1)); S->RnsToMixedRadix(mo, E);
+      for (size_t i = 0; i < n && i < mo.size(); ++i) o << D[i].convert(t, mo[i]) << " "; }
+    o << "| ";
+    if (!As.empty()) { Elements r0; S->RingToRns(r0, As.back()); for (size_t i = 0; i < r0.size(); ++i) o << D[i < n ? i : 0].convert(t, r0[i]) << " "; }
+    o << "| " << first.str();
     delete S; delete aux; delete aux2;
     return o.str();
 }
@@ -230,9 +288,18 @@ static FX* make_fixed(const IV& P) {     // constructor argument overwritten and
     delete tmp;
     return S;
 }
+template <class TT> struct FixRes {
+    typedef std::vector<TT> type;
+    static void fill(type& R, const IV& R0) { R = castvec<TT>(R0); }
+};
+struct UseArray0 {};
+template <> struct FixRes<UseArray0> {
+    typedef Array0<Integer> type;
+    static void fill(type& R, const IV& R0) { R.allocate(R0.size()); for (size_t i = 0; i < R0.size(); ++i) R[i] = R0[i]; }
+};
 template <class TT>
 static std::string run_fixed(const std::string& hist, const IV& P, const IV& R0) {
-    std::vector<TT> R = castvec<TT>(R0);           // RnsToRing is a template over the residue container
+    typename FixRes<TT>::type R; FixRes<TT>::fill(R, R0);      // RnsToRing is a template over the residue container
     std::ostringstream o;
     Integer V("987654321987654321987654321"), dump;
     IV ones(P.size(), Integer(1));
@@ -246,7 +313,12 @@ static std::string run_fixed(const std::string& hist, const IV& P, const IV& R0)
         *S = *A; delete A; A = 0;
     }
     else if (hist == "assigncold") { A = make_fixed(P); S = new FX(); *S = *A; delete A; A = 0; }
+    else if (hist == "assigncc") {     // never-used source over a used system with the same number of primes
+        A = make_fixed(P); IV O1 = other_primes(P.size()); IV o1(O1.size(), Integer(1));
+        S = make_fixed(O1); S->RnsToRing(dump, o1); *S = *A; delete A; A = 0;
+    }
     else return "BAD-HIST";
+    if (S->Primes().empty() || S->Primes().front().size() != P.size()) return "BAD-SIZE";   // (size() is the number of tree levels)
     S->RnsToRing(V, R);
     Integer V2(-3); S->RnsToRing(V2, R);            // a second conversion on the same object
     o << V << " " << V2;
@@ -274,7 +346,13 @@ static std::string run_cra(const Integer& M, const Integer& Dm, const Integer& A
     CRA_t copy(*CRA);
     delete CRA; delete Mvar; delete Dvar;
     Integer res2(-5); copy(res2, A, ee);
-    return str(res) + " " + str(res2);
+    // a functor built for other arguments, then assigned
+    Integer M2(M + 2); Dom D2(Integer(7));
+    CRA_t asg(ID, M2, D2);
+    typename Dom::Element e7; D2.init(e7, Integer(3)); Integer d7; asg(d7, Integer(1), e7);
+    asg = copy;
+    Integer res3(17); asg(res3, A, ee);
+    return str(res) + " " + str(res2) + " " + str(res3);
 }
 
 // incremental lifting over a list of moduli:  x_1 = r_1,  x_{i+1} = lift(x_i, r_{i+1})  with M_i = p_1 ... p_i
@@ -389,31 +467,39 @@ int main() {
                 else if (t[1] == "mbd") o << Integer(ModularBalanced<double>::maxCardinality());
                 out = o.str();
             } else if (t[0] == "int" || t[0] == "rns") {
-                const std::string hist = t[1], sub = t[2];
-                size_t n = (size_t)atol(t[3].c_str());
-                IV P, R; size_t k = 4;
+                const std::string hist = t[1];
+                size_t k = 2;
+                std::string ctor, sub, order;
+                if (t[0] == "int") { ctor = t[k++]; sub = t[k++]; order = t[k++]; }
+                else { sub = t[k++]; order = t[k++]; }
+                size_t n = (size_t)atol(t[k++].c_str());
+                IV P, R;
                 for (size_t i = 0; i < n; ++i) P.push_back(parseI(t[k++]));
                 for (size_t i = 0; i < n; ++i) R.push_back(parseI(t[k++]));
                 size_t na = (size_t)atol(t[k++].c_str());
                 IV a; for (size_t i = 0; i < na; ++i) a.push_back(parseI(t[k++]));
                 if (t[0] == "int") {
-                    if (sub == "Integer") out = run_int<Integer>(hist, P, R, a);
-                    else if (sub == "int64") out = run_int<int64_t>(hist, P, R, a);
-                    else if (sub == "uint64") out = run_int<uint64_t>(hist, P, R, a);
+                    IntMaker mk = int_maker(ctor);
+                    if (!mk) out = "BAD-CTOR";
+                    else if (sub == "Integer") out = run_int<Integer>(hist, mk, order, P, R, a);
+                    else if (sub == "int32") out = run_int<int32_t>(hist, mk, order, P, R, a);
+                    else if (sub == "uint32") out = run_int<uint32_t>(hist, mk, order, P, R, a);
+                    else if (sub == "int64") out = run_int<int64_t>(hist, mk, order, P, R, a);
+                    else if (sub == "uint64") out = run_int<uint64_t>(hist, mk, order, P, R, a);
                     else out = "BAD-TT";
                 } else {
-                    if (sub == "mdouble") out = run_rns<Modular<double> >(hist, P, R, a);
-                    else if (sub == "mi64") out = run_rns<Modular<int64_t> >(hist, P, R, a);
-                    else if (sub == "mu64") out = run_rns<Modular<uint64_t> >(hist, P, R, a);
-                    else if (sub == "mi32") out = run_rns<Modular<int32_t> >(hist, P, R, a);
-                    else if (sub == "mint") out = run_rns<Modular<Integer> >(hist, P, R, a);
-                    else if (sub == "mfloat") out = run_rns<Modular<float> >(hist, P, R, a);
-                    else if (sub == "mu32") out = run_rns<Modular<uint32_t> >(hist, P, R, a);
-                    else if (sub == "mont32") out = run_rns<Montgomery<int32_t> >(hist, P, R, a);
-                    else if (sub == "mru7") out = run_rns<Modular<RecInt::ruint<7> > >(hist, P, R, a);
-                    else if (sub == "mlog16") out = run_rns<Modular<Log16> >(hist, P, R, a);
-                    else if (sub == "mb64") out = run_rns<ModularBalanced<int64_t> >(hist, P, R, a);
-                    else if (sub == "mbd") out = run_rns<ModularBalanced<double> >(hist, P, R, a);
+                    if (sub == "mdouble") out = run_rns<Modular<double> >(hist, order, P, R, a);
+                    else if (sub == "mi64") out = run_rns<Modular<int64_t> >(hist, order, P, R, a);
+                    else if (sub == "mu64") out = run_rns<Modular<uint64_t> >(hist, order, P, R, a);
+                    else if (sub == "mi32") out = run_rns<Modular<int32_t> >(hist, order, P, R, a);
+                    else if (sub == "mint") out = run_rns<Modular<Integer> >(hist, order, P, R, a);
+                    else if (sub == "mfloat") out = run_rns<Modular<float> >(hist, order, P, R, a);
+                    else if (sub == "mu32") out = run_rns<Modular<uint32_t> >(hist, order, P, R, a);
+                    else if (sub == "mont32") out = run_rns<Montgomery<int32_t> >(hist, order, P, R, a);
+                    else if (sub == "mru7") out = run_rns<Modular<RecInt::ruint<7> > >(hist, order, P, R, a);
+                    else if (sub == "mlog16") out = run_rns<Modular<Log16> >(hist, order, P, R, a);
+                    else if (sub == "mb64") out = run_rns<ModularBalanced<int64_t> >(hist, order, P, R, a);
+                    else if (sub == "mbd") out = run_rns<ModularBalanced<double> >(hist, order, P, R, a);
                     else out = "BAD-DOM";
                 }
             } else if (t[0] == "fixed") {
@@ -425,6 +511,9 @@ int main() {
                 if (sub == "Integer") out = run_fixed<Integer>(hist, P, R);
                 else if (sub == "int64") out = run_fixed<int64_t>(hist, P, R);
                 else if (sub == "uint64") out = run_fixed<uint64_t>(hist, P, R);
+                else if (sub == "int32") out = run_fixed<int32_t>(hist, P, R);
+                else if (sub == "uint32") out = run_fixed<uint32_t>(hist, P, R);
+                else if (sub == "array0") out = run_fixed<UseArray0>(hist, P, R);
                 else out = "BAD-TT";
             } else if (t[0] == "cra") {
                 const std::string dom = t[1]; bool red = t[2] == "1";
@@ -433,6 +522,9 @@ int main() {
                 else if (dom == "mi64") out = red ? run_cra<Modular<int64_t>, true>(M, D, A, e) : run_cra<Modular<int64_t>, false>(M, D, A, e);
                 else if (dom == "mu64") out = red ? run_cra<Modular<uint64_t>, true>(M, D, A, e) : run_cra<Modular<uint64_t>, false>(M, D, A, e);
                 else if (dom == "mint") out = red ? run_cra<Modular<Integer>, true>(M, D, A, e) : run_cra<Modular<Integer>, false>(M, D, A, e);
+                else if (dom == "mi32") out = red ? run_cra<Modular<int32_t>, true>(M, D, A, e) : run_cra<Modular<int32_t>, false>(M, D, A, e);
+                else if (dom == "mu32") out = red ? run_cra<Modular<uint32_t>, true>(M, D, A, e) : run_cra<Modular<uint32_t>, false>(M, D, A, e);
+                else if (dom == "mfloat") out = red ? run_cra<Modular<float>, true>(M, D, A, e) : run_cra<Modular<float>, false>(M, D, A, e);
                 else out = "BAD-DOM";
             } else if (t[0] == "lift") {
                 const std::string dom = t[1], mode = t[2];
